@@ -59,6 +59,7 @@ def compare_play(model, real):
     if d:
         return "disagree", d
     for i, (m, r) in enumerate(zip(model["steps"], real["steps"])):
+        r = {k: v for k, v in r.items() if k != "pre_hook_vars"}      # harness-side observation, not part of the model's answer
         d = first_diff(norm(m), norm(r), f"/steps/{i}")
         if d:
             return "disagree", d
